@@ -1,13 +1,14 @@
 """C01 — every 1-D quadrature rule is exact on its polynomial class, for every size."""
 import importlib
 import math
+import traceback
 import warnings
 from fractions import Fraction
 from pathlib import Path
 
 import numpy as np
 
-from ..common import Ctx, Tokens, b2f, close, driver_batch, f2b, fvec
+from ..common import Ctx, DriverError, Tokens, b2f, close, driver_batch, f2b, fvec
 
 LEVEL = "proof"
 LEVEL_TEXT = (
@@ -173,7 +174,11 @@ def _impl(fn):
             return "runtime-error"
         except IndexError:
             return "index-error"
+        except Exception as e:   # anything else the library raises is an answer as well (the model has no such answer)
+            return "raises-" + type(e).__name__
     dom = g.domain
+    if dom is None or len(dom) != 2:
+        return "no-domain"          # (no constructor of onedgrid.py leaves the domain out: differs from every model answer)
     return (np.asarray(g.points, dtype=float), np.asarray(g.weights, dtype=float), float(dom[0]), float(dom[1]))
 
 
@@ -250,6 +255,9 @@ def _cases(ctx: Ctx):
             alphas = [0.0]
             if small or ctx.thorough or rng.random() < 0.5:
                 alphas.append(round(rng.uniform(-0.95, 6.0), 3))
+                alphas.append(round(rng.uniform(-0.99, -0.01), 3))      # (-1, 0): where x^(-alpha) is a positive power
+            if n in (3, 8, 21):
+                alphas += [1e-3, -1e-3, 1e-12, -1e-12]                   # either side of alpha = 0
             if n in (2, 5):
                 alphas += [-1.0, -2.5]
             for a in alphas:
@@ -941,11 +949,7 @@ def _corr_fresh_process(ctx: Ctx):
                  {"cls": cls, "args": list(args), "src": src, "prelude": [h for h in srcs[:pos] if f"og.{cls}(" in h]})
 
 
-def corr(ctx: Ctx):
-    _selfcheck_translation(ctx)
-    _corr_fejer2_corrected(ctx)
-    _corr_defaults(ctx)
-    _corr_init(ctx)
+def _corr_constructors(ctx: Ctx):
     cases = _cases(ctx)
     lines = [c["line"] for c in cases]
     answers = driver_batch(lines + [_ctor_line(l) for l in lines])
@@ -963,10 +967,22 @@ def corr(ctx: Ctx):
         ctx.count(["ctor"] + c["line"].split()[1:5], nontrivial=False, tag="gen:ctor")
         _compare(ctx, f"ctor:{cls}", " ".join(c["line"].split()[1:5]) + " [regenerated constructor]", impl, _parse(gans), c["rtol"],
                  c["elementwise"], {"op": c["line"][:300], "cls": cls, "n": n})
-    _run_src_cases(ctx, _kind_cases(ctx))
-    _corr_fresh_process(ctx)
-    _run_src_cases(ctx, _large_cases(ctx))
-    _corr_repeated(ctx)
+
+
+def corr(ctx: Ctx):
+    """independent parts (`_run_parts`): a translator / driver problem in one does not abort the others"""
+    _run_parts(ctx, "corr", [
+        ("selfcheck-translation", lambda: _selfcheck_translation(ctx)),
+        ("fejer2-corrected", lambda: _corr_fejer2_corrected(ctx)),
+        ("defaults", lambda: _corr_defaults(ctx)),
+        ("init", lambda: _corr_init(ctx)),
+        ("constructors", lambda: _corr_constructors(ctx)),
+        ("kinds", lambda: _run_src_cases(ctx, _kind_cases(ctx))),
+        ("step-grid", lambda: _run_src_cases(ctx, _step_grid_cases(ctx))),
+        ("fresh-process", lambda: _corr_fresh_process(ctx)),
+        ("large-n", lambda: _run_src_cases(ctx, _large_cases(ctx))),
+        ("repeated", lambda: _corr_repeated(ctx)),
+    ])
 
 
 # ----------------------------------------------------------------------------------------------
@@ -1073,12 +1089,14 @@ def _oracle_weighted(ctx, og, nmax, rng):
     c1 = [0.0 if k % 2 else float(mp.pi * mp.binomial(k, k // 2) / 2**k) for k in range(2 * nmax)]
     c2 = [0.0 if k % 2 else float(mp.pi * mp.binomial(k, k // 2) / 2**k / (k + 2)) for k in range(2 * nmax)]
     alphas = [0.0, -0.5, 0.5, round(rng.uniform(-0.95, 4.0), 2)]
-    gam = {a: [float(mp.gamma(k + a + 1)) for k in range(2 * nmax)] for a in alphas}
+    # round 4: alpha in (-1, 0) and next to 0 from either side (n <= 24 for the additional ones)
+    more = [-0.9, -0.25, -1e-3, 1e-3, round(rng.uniform(-0.99, -0.01), 3), round(rng.uniform(0.01, 0.99), 3)]
+    gam = {a: [float(mp.gamma(k + a + 1)) for k in range(2 * nmax)] for a in alphas + more}
     for n in range(1, nmax + 1):
         jobs = []
         if n >= 2:
             jobs.append(("GaussChebyshev", None, c1, lambda x: 1 / np.sqrt(1 - x**2)))
-            jobs += [("GaussLaguerre", a, gam[a], (lambda x, a=a: x**a * np.exp(-x))) for a in alphas]
+            jobs += [("GaussLaguerre", a, gam[a], (lambda x, a=a: x**a * np.exp(-x))) for a in alphas + (more if n <= 24 else [])]
         jobs.append(("GaussChebyshevType2", None, c2, lambda x: np.sqrt(1 - x**2)))
         for cls, a, exact, omega in jobs:
             g = _build(og, cls, n) if a is None else _build(og, cls, n, a)
@@ -1095,6 +1113,40 @@ def _oracle_weighted(ctx, og, nmax, rng):
                              witness={"class": cls, "npoints": n, "alpha": a, "k": k, "quadrature": got, "exact": exact[k]},
                              snippet=SNIP_WEIGHTED.format(cls=cls, n=n, alpha=a, k=k, tol=tol))
                     break
+    # class 19: where what the wrapper consumes is extreme -- roots_genlaguerre weights underflow towards 1e-300 while
+    # exp(points) grows towards 1e298 (measured envelope on the pinned tree: finite and accurate to 3e-14 up to npoints = 184,
+    # the largest node then passes log(DBL_MAX) = 709.78 and exp(points) * 0 is NaN from npoints = 186 on: outside binary64)
+    # Degrees up to 2n-1 weigh the far nodes (x^k e^-x peaks at x = k), so the moments are taken in logarithms relative to
+    # Gamma(k + alpha + 1) (which overflows from k = 171): measured <= 2e-13 for every degree up to 2n-1 and n <= 184.
+    for n in (100, 150, 180, 184):
+        for a in (-0.5, 0.0, 1.5, round(rng.uniform(-0.9, -0.1), 2)):
+            g = _build(og, "GaussLaguerre", n, a)
+            if g is None:
+                ctx.fail("oracle", "onedgrid.GaussLaguerre", f"GaussLaguerre({n}, {a}) rejected although admissible")
+                continue
+            x, w = np.asarray(g.points, dtype=float), np.asarray(g.weights, dtype=float)
+            for k in (0, 1, 5, n // 2, n, 3 * n // 2, 2 * n - 1):
+                with np.errstate(all="ignore"):
+                    t = np.log(w) + a * np.log(x) - x + k * np.log(x) - math.lgamma(k + a + 1)
+                    got = math.fsum(np.exp(t).tolist())
+                if not abs(got - 1.0) <= 5e-12:
+                    ctx.fail("oracle", "onedgrid.GaussLaguerre",
+                             f"GaussLaguerre({n}, alpha={a}): sum w_i omega(x_i) x_i^{k} / Gamma({k} + alpha + 1) = {got!r} instead of 1",
+                             witness={"class": "GaussLaguerre", "npoints": n, "alpha": a, "k": k, "relative_moment": got},
+                             snippet=SNIP_LAGLOG.format(n=n, alpha=a, k=k))
+                    break
+
+
+SNIP_LAGLOG = """import warnings; warnings.filterwarnings('ignore')
+import numpy as np, math
+from grid import onedgrid as og
+n, alpha, k = {n}, {alpha!r}, {k}
+g = og.GaussLaguerre(n, alpha)
+x, w = g.points, g.weights
+with np.errstate(all='ignore'):
+    got = math.fsum(np.exp(np.log(w) + alpha * np.log(x) - x + k * np.log(x) - math.lgamma(k + alpha + 1)).tolist())
+assert abs(got - 1.0) <= 5e-12, f'GaussLaguerre({{n}}, {{alpha}}): sum w_i x_i^alpha e^-x_i x_i^{{k}} / Gamma(k + alpha + 1) = {{got!r}} instead of 1'
+"""
 
 
 def _check_shape(ctx, cls, g, n, lo, hi, strict, label):
@@ -1784,24 +1836,487 @@ def _oracle_use(ctx, og, rng):
                 break
 
 
+# ----------------------------------------------------------------------------------------------
+# round 4
+# ----------------------------------------------------------------------------------------------
+def _run_parts(ctx, stage, parts):
+    """Run the independent parts of a stage; an exception in one part never hides what the others find.  When the library
+    raised (a frame of the grid package in the traceback) it is a failure of that part (`<part>:raises`); a harness /
+    driver / translator problem is kept and re-raised after all parts have run."""
+    first = None
+    for name, fn in parts:
+        try:
+            fn()
+        except Exception as e:
+            frames = traceback.extract_tb(e.__traceback__)
+            in_lib = [fr for fr in frames if "/grid/" in fr.filename.replace("\\", "/") and "/harness/" not in fr.filename]
+            if in_lib and not isinstance(e, DriverError):
+                fr = in_lib[-1]
+                ctx.fail(stage, f"{name}:raises", f"part `{name}`: the library raised {type(e).__name__}: {str(e)[:200]} "
+                         f"({Path(fr.filename).name}:{fr.lineno} in {fr.name}) on an input inside the admissible envelope",
+                         witness={"traceback": traceback.format_exc()[-1500:]})
+            elif first is None:
+                first = e
+    if first is not None:
+        raise first
+
+
+H_GRID = [0.1, 0.05, 0.15, 0.2, 0.3, 0.01]
+STEP_T = {"TanhSinh": 2.9, "LogExpSinh": 3.5}      # |k h| up to which the node map is resolved in binary64 (others: 6)
+
+
+def step_checks(cls, n, h, points, weights):
+    """Identities every step rule satisfies (independent of the closed forms of the code): the node COUNT, the reflection
+    k -> -k of the node map, constant ratios, the centre node and weight.  -> list of messages (empty = fine)."""
+    import math
+    import numpy as np
+    p, w = np.asarray(points, dtype=float), np.asarray(weights, dtype=float)
+    out = []
+    if len(p) != n or len(w) != n:
+        return [f"{len(p)} nodes / {len(w)} weights instead of {n}"]
+    m = (n - 1) // 2
+    k = np.arange(-m, m + 1)
+    T = {"TanhSinh": 2.9, "LogExpSinh": 3.5}.get(cls, 6.0)
+    ok = np.abs(k * h) <= T                       # where the node map is resolved in binary64
+    q = p[::-1]
+    with np.errstate(all="ignore"):
+        if cls in ("TanhSinh", "SingleTanh"):
+            d = np.abs(p + q)
+            if np.any(d > 1e-15):
+                out.append(f"nodes not antisymmetric: x_k + x_-k = {float(d.max())!r}")
+            if np.any(np.abs(w - w[::-1]) > 1e-13 * np.abs(w)):
+                out.append("weights not symmetric under k -> -k")
+        elif cls in ("ExpSinh", "SingleExp"):
+            d = np.abs(p * q - 1)[ok]
+            if np.any(d > 1e-12):
+                out.append(f"x_k x_-k = 1 violated by {float(d.max())!r}")
+        elif cls == "LogExpSinh":
+            sel = np.abs(math.pi / 2 * np.sinh(k * h)) <= 5
+            d = np.abs(np.expm1(p) * np.expm1(q) - 1)[sel]
+            if np.any(d > 1e-9):
+                out.append(f"(e^x_k - 1)(e^x_-k - 1) = 1 violated by {float(d.max())!r}")
+        elif cls == "SingleArcSinhExp":
+            d = np.abs(np.sinh(p) * np.sinh(q) - 1)[ok]
+            if np.any(d > 1e-10):
+                out.append(f"sinh(x_k) sinh(x_-k) = 1 violated by {float(d.max())!r}")
+        elif cls == "ExpExp":
+            sel = np.abs(k * h) <= 5
+            t = k * h
+            d = np.abs(np.log(p / q) - 2 * (t + np.sinh(t)))[sel]
+            if np.any(d > 1e-10 * (1 + np.abs(t[sel]) + np.abs(np.sinh(t[sel])))):
+                out.append(f"log(x_k / x_-k) = 2 (t + sinh t) violated by {float(d.max())!r}")
+        if cls == "SingleExp":
+            r = (p[1:] / p[:-1])[ok[1:] & ok[:-1]]
+            if len(r) and np.any(np.abs(r - math.exp(h)) > 1e-12 * math.exp(h)):
+                out.append(f"ratio of consecutive nodes is not e^h: {float(r[np.argmax(np.abs(r - math.exp(h)))])!r} vs {math.exp(h)!r}")
+            if np.any(np.abs(w / p - h)[ok] > 1e-13 * h):
+                out.append("weight / node is not h")
+        if cls == "SingleTanh":
+            sel = np.abs(k * h) <= 5
+            if np.any(np.abs(w - h * (1 - p * p))[sel] > 1e-9 * h * (1 - p * p)[sel]):
+                out.append("weight is not h (1 - x^2)")
+    centre = {"TanhSinh": (0.0, math.pi / 2 * h), "SingleTanh": (0.0, h), "ExpSinh": (1.0, math.pi / 2 * h), "SingleExp": (1.0, h),
+              "LogExpSinh": (math.log(2.0), math.pi * h / 4), "ExpExp": (math.exp(-1.0), 2 * h * math.exp(-1.0)),
+              "SingleArcSinhExp": (math.asinh(1.0), h / math.sqrt(2.0))}[cls]
+    if abs(p[m] - centre[0]) > 1e-14 or abs(w[m] - centre[1]) > 1e-13 * centre[1]:
+        out.append(f"centre node / weight ({float(p[m])!r}, {float(w[m])!r}) instead of {centre}")
+    if np.any(np.diff(p[ok]) <= 0):
+        i = int(np.argmax(np.diff(p[ok]) <= 0))
+        out.append(f"nodes not strictly ascending at index {i}")
+    return out
+
+
+def _oracle_step_grid(ctx, og, rng, full):
+    """Every step rule on a GRID of (npoints, h): h = 0.1, 0.05, 0.15, 0.2, 0.3, 0.01 (decimal fractions, no binary ones), the
+    default and a random one, npoints = every odd size up to 61 and sampled odd sizes up to 201 -- node count, reflection
+    symmetry, ratios, centre (`step_checks`), and the closed form by mpmath at sampled indices."""
+    import inspect
+    import mpmath as mp
+    mp.mp.dps = 30
+    phi = _phi()
+    src_checks = inspect.getsource(step_checks)
+    for cls in STEP:
+        first = 3 if cls == "TanhSinh" else 1
+        hs = H_GRID + [STEP_DEFAULT.get(cls, 0.1), round(rng.uniform(0.011, 0.45), 3), round(rng.uniform(0.011, 0.45), 4)]
+        ns = list(range(first, 63, 2)) + sorted({2 * rng.randrange(31, 101) + 1 for _ in range(20 if full else 8)}) + [199, 201]
+        nfail = 0
+        for h in dict.fromkeys(hs):
+            for n in ns:
+                g = _build(og, cls, n, h)
+                label = f"{cls}({n}, {h})"
+                if g is None:
+                    ctx.fail("oracle", f"onedgrid.{cls}", f"{label} rejected although admissible", witness={"class": cls, "npoints": n, "h": h})
+                    continue
+                bad = step_checks(cls, n, h, g.points, g.weights)
+                if not bad and rng.random() < 0.04:
+                    # closed form at three indices inside the resolved range
+                    m = (n - 1) // 2
+                    kmax = min(m, int(STEP_T.get(cls, 6.0) / h))
+                    for kk in {0, kmax, -kmax, rng.randint(-kmax, kmax)}:
+                        t = kk * mp.mpf(h)
+                        node, wt = float(phi[cls][0](t)), float(mp.mpf(h) * mp.diff(phi[cls][0], t))
+                        if not (abs(float(g.points[m + kk]) - node) <= 1e-10 * abs(node) + 1e-14 and abs(float(g.weights[m + kk]) - wt) <= 1e-9 * abs(wt)):
+                            bad = [f"node/weight of k = {kk}: ({float(g.points[m + kk])!r}, {float(g.weights[m + kk])!r}), node map gives {node!r}, step x derivative {wt!r}"]
+                            break
+                if bad:
+                    nfail += 1
+                    snippet = ("import warnings; warnings.filterwarnings('ignore')\n" + src_checks +
+                               f"\nfrom grid import onedgrid as og\ng = og.{cls}({n}, {h!r})\nbad = step_checks({cls!r}, {n}, {h!r}, g.points, g.weights)\n"
+                               f"assert not bad, '{label}: ' + '; '.join(bad)\n")
+                    ctx.fail("oracle", f"onedgrid.{cls}", f"{label}: " + "; ".join(bad[:3]),
+                             witness={"class": cls, "npoints": n, "h": h, "failed": bad[:5]}, snippet=snippet)
+                    if nfail >= 3:
+                        break
+            if nfail >= 3:
+                break
+
+
+def _step_grid_cases(ctx: Ctx):
+    """correspondence on the same (npoints, h) grid (the model counts its nodes from the integer index range)"""
+    rng = ctx.rng
+    out = []
+    for cls in STEP:
+        pairs = {(2 * rng.randrange(1, 101) + 1, rng.choice(H_GRID)) for _ in range(ctx.n(14, 120))}
+        pairs |= {(n, 0.1) for n in (3, 13, 29, 43)} | {(201, 0.01), (199, 0.05)}
+        for n, h in sorted(pairs):
+            r, e = _tol(cls, n, (h,))
+            out.append(dict(cls=cls, args=[n, h], src=_src(cls, str(n), repr(h)), line=_model_line(cls, n, h), rtol=r, elementwise=e,
+                            allow=(), tag="step-grid", nontrivial=True))
+    return out
+
+
+def _kind_convert(a, kind):
+    a = np.asarray(a)
+    if kind == "float32":
+        return a.astype(np.float32)
+    if kind == "read-only":
+        b = np.array(a, dtype=float)
+        b.flags.writeable = False
+        return b
+    if kind == "strided":
+        big = np.full(2 * len(a) + 1, 7.25)
+        big[1::2] = a
+        return big[1::2]
+    if kind == "negative-stride":
+        return np.array(a[::-1], dtype=float)[::-1]
+    if kind == "int64":
+        return np.rint(a).astype(np.int64)
+    if kind == "int32":
+        return np.rint(a).astype(np.int32)
+    if kind == "longdouble":
+        return a.astype(np.longdouble)
+    return np.array(a, dtype=float)
+
+
+def _oracle_kinds(ctx, og, rng):
+    """Class 14 / 17: the arrays *inside* the grid object a Trefethen...General class gets from `quadrature(npoints)`, in
+    every storage kind (float32, read-only, strided, negative stride, longdouble; integer nodes for a rule with integer
+    nodes), against the same rule held in contiguous float64; and function-value arrays of every kind (int, bool, float32,
+    complex, longdouble, read-only, strided views) handed to `integrate`."""
+    from grid.basegrid import OneDGrid
+
+    def holder(base, kind, int_points=False):
+        class Held(OneDGrid):
+            as_kind = True
+
+            def __init__(self, npoints):
+                with warnings.catch_warnings():
+                    warnings.simplefilter("ignore")
+                    b = getattr(og, base)(npoints)
+                p, w = b.points, b.weights
+                if kind == "float32":          # both variants hold the values rounded to single precision
+                    p, w = p.astype(np.float32), w.astype(np.float32)
+                if not self.as_kind:
+                    p, w = np.array(p, dtype=float), np.array(w, dtype=float)
+                elif kind != "float32":
+                    p, w = _kind_convert(p, kind), _kind_convert(w, "plain" if int_points else kind)
+                super().__init__(p, w, b.domain)
+        return Held
+
+    jobs = []
+    for kind in ("float32", "read-only", "strided", "negative-stride", "longdouble"):
+        base = rng.choice(["GaussLegendre", "FejerFirst", "ClenshawCurtis", "MidPoint", "GaussChebyshevType2"])
+        jobs.append((base, kind, False, rng.randrange(3, 12)))
+    jobs += [("Trapezoidal", "int64", True, 3), ("Trapezoidal", "int32", True, 2), ("Simpson", "int64", True, 3)]
+    for base, kind, intp, n in jobs:
+        H = holder(base, kind, intp)
+        for cls, par in (("TrefethenGeneral", 1), ("TrefethenGeneral", 5), ("TrefethenGeneral", 9), ("TrefethenStripGeneral", round(rng.uniform(1.1, 3.0), 2))):
+            label = f"{cls}({n}, <{base} holding its arrays as {kind}>, {par})"
+            res = []
+            for as_kind in (True, False):
+                H.as_kind = as_kind
+                try:
+                    with warnings.catch_warnings():
+                        warnings.simplefilter("ignore")
+                        g = getattr(og, cls)(n, H, par)
+                    res.append((np.asarray(g.points, dtype=float), np.asarray(g.weights, dtype=float)))
+                except Exception as e:
+                    res.append(f"{type(e).__name__}: {e}")
+            key = f"onedgrid.{cls}:array-kind"
+            if isinstance(res[1], str):
+                continue   # the float64 reference itself is not admissible
+            if isinstance(res[0], str):
+                ctx.fail("oracle", key, f"{label} raised {res[0][:160]} although the same rule held in float64 is accepted",
+                         witness={"class": cls, "base": base, "kind": kind, "npoints": n, "param": par})
+                continue
+            tol = 5e-6 if kind == "float32" else 1e-13
+            dp, dw = float(np.max(np.abs(res[0][0] - res[1][0]))), float(np.max(np.abs(res[0][1] - res[1][1])))
+            if not (dp <= tol and dw <= tol):     # (NaN fails too)
+                ctx.fail("oracle", key, f"{label}: nodes differ by {dp:.2e}, weights by {dw:.2e} from the same rule held in contiguous float64",
+                         witness={"class": cls, "base": base, "kind": kind, "npoints": n, "param": par, "node_diff": dp, "weight_diff": dw})
+    # function values of every kind through `integrate`
+    for src in ("og.ClenshawCurtis(6)", "og.GaussLaguerre(5, -0.5)", "og.TanhSinh(9, 0.3)"):
+        with warnings.catch_warnings():
+            warnings.simplefilter("ignore")
+            g = _eval_src(og, src)
+        n = g.size
+        w0 = [float(v) for v in g.weights]
+        vals = {
+            "int64": np.array([rng.randrange(-5, 6) for _ in range(n)]), "int32": np.array([rng.randrange(-5, 6) for _ in range(n)], dtype=np.int32),
+            "bool": np.array([rng.random() < 0.5 for _ in range(n)]), "float32": np.array([rng.randrange(-8, 9) / 4 for _ in range(n)], dtype=np.float32),
+            "complex128": np.array([complex(rng.uniform(-1, 1), rng.uniform(-1, 1)) for _ in range(n)]),
+            "complex64": np.array([complex(rng.randrange(-4, 5) / 2, rng.randrange(-4, 5) / 2) for _ in range(n)], dtype=np.complex64),
+            "longdouble": np.array([rng.uniform(-1, 1) for _ in range(n)], dtype=np.longdouble),
+            "read-only": _kind_convert([rng.uniform(-1, 1) for _ in range(n)], "read-only"),
+            "strided": _kind_convert([rng.uniform(-1, 1) for _ in range(n)], "strided"),
+            "negative-stride": _kind_convert([rng.uniform(-1, 1) for _ in range(n)], "negative-stride"),
+        }
+        for kind, f in vals.items():
+            before = f.tobytes()
+            fl = [complex(v) for v in f.tolist()]
+            want = complex(math.fsum(w * v.real for w, v in zip(w0, fl)), math.fsum(w * v.imag for w, v in zip(w0, fl)))
+            want2 = complex(math.fsum(w * (v * v).real for w, v in zip(w0, fl)), math.fsum(w * (v * v).imag for w, v in zip(w0, fl)))
+            try:
+                got, got2 = complex(g.integrate(f)), complex(g.integrate(f, f))
+            except Exception as e:
+                ctx.fail("oracle", "onedgrid.integrate:value-kind", f"{src}.integrate(<{kind} values>) raised {type(e).__name__}: {e}",
+                         witness={"call": src, "kind": kind, "values": [str(v) for v in f.tolist()]})
+                continue
+            scale = max(1.0, math.fsum(abs(w) * abs(v) for w, v in zip(w0, fl)))
+            scale2 = max(1.0, math.fsum(abs(w) * abs(v) ** 2 for w, v in zip(w0, fl)))
+            if not (abs(got - want) <= 1e-12 * scale and abs(got2 - want2) <= 1e-12 * scale2) or f.tobytes() != before:
+                ctx.fail("oracle", "onedgrid.integrate:value-kind",
+                         f"{src}.integrate(<{kind} values>) = {got!r} (f, f: {got2!r}), sum w_i f_i = {want!r} (sum w_i f_i^2 = {want2!r})"
+                         + ("; the value array was modified" if f.tobytes() != before else ""),
+                         witness={"call": src, "kind": kind, "values": [str(v) for v in f.tolist()]})
+
+
+def _oracle_arg_forms(ctx, og, rng):
+    """Class 15: omitted vs explicit default vs keyword default (and `domain` omitted / None / keyword None): one rule."""
+    import inspect
+    from grid.basegrid import OneDGrid
+    for cls in ALL26:
+        sig = inspect.signature(getattr(og, cls).__init__)
+        dfl = [(p.name, PARAM_DEFAULT[cls]) for p in sig.parameters.values() if p.default is not inspect.Parameter.empty]   # the documented value
+        if not dfl:
+            continue
+        n = 7 if (cls in STEP or cls == "Simpson") else rng.randrange(4, 10)
+        q = ", og.FejerFirst" if "General" in cls else ""
+        (name, val), = dfl[:1]
+        forms = [f"og.{cls}({n}{q})", f"og.{cls}({n}{q}, {val!r})", f"og.{cls}({n}{q}, {name}={val!r})", f"og.{cls}(npoints={n}{q.replace(', ', ', quadrature=')}, {name}={val!r})",
+                 f"og.{cls}({name}={val!r}, npoints={n}{q.replace(', ', ', quadrature=')})"]
+        res = []
+        for f in forms:
+            r = _impl(lambda f=f: _eval_src(og, f))
+            res.append(r)
+        for f, r in zip(forms[1:], res[1:]):
+            same = (isinstance(r, str) and r == res[0]) or (not isinstance(r, str) and not isinstance(res[0], str)
+                                                               and _bits_equal(r[0], res[0][0]) and _bits_equal(r[1], res[0][1]) and r[2:] == res[0][2:])
+            if not same:
+                ctx.fail("oracle", f"onedgrid.{cls}:argument-form", f"{f} differs from {forms[0]} although {name}={val!r} is the documented default",
+                         witness={"class": cls, "call": f, "reference_call": forms[0]},
+                         snippet=f"import warnings; warnings.filterwarnings('ignore')\nimport numpy as np\nfrom grid import onedgrid as og\na, b = {f}, {forms[0]}\n"
+                                 "assert np.array_equal(a.points, b.points) and np.array_equal(a.weights, b.weights) and tuple(a.domain) == tuple(b.domain), 'differs from the default call'\n")
+    p, w = np.array([0.25, 0.5]), np.array([1.0, 2.0])
+    gs = [OneDGrid(p, w), OneDGrid(p, w, None), OneDGrid(p, w, domain=None), OneDGrid(points=p, weights=w), OneDGrid(weights=w, domain=None, points=p)]
+    if any(g.domain is not None or not np.array_equal(g.points, p) or not np.array_equal(g.weights, w) for g in gs):
+        ctx.fail("oracle", "basegrid.OneDGrid:argument-form", "OneDGrid(points, weights) with domain omitted / None / by keyword differ")
+    a, b = OneDGrid(p, w, (0, 1)), OneDGrid(domain=(0, 1), weights=w, points=p)
+    if tuple(a.domain) != tuple(b.domain) or not np.array_equal(a.points, b.points):
+        ctx.fail("oracle", "basegrid.OneDGrid:argument-form", "OneDGrid positional / keyword domain differ")
+
+
+def _oracle_shared_args(ctx, og, rng):
+    """Class 16: one array object for several requests -- the same ndarray as points and as weights, the same arrays for
+    two grids, a view into a larger caller array (the bytes around it must not change), one array two / three times in
+    `integrate`; every answer against pristine copies, the arguments unchanged afterwards."""
+    from grid.basegrid import OneDGrid
+    big = np.array([rng.uniform(0.05, 0.95) for _ in range(16)])      # not sorted: the API does not require order
+    snap = big.tobytes()
+    v = big[4:11]                      # a view into the caller's array
+    ref = np.array(v)
+    key = "basegrid.OneDGrid:shared-argument"
+    g1 = OneDGrid(v, v, (0, 1))        # the same object twice
+    g2 = OneDGrid(v, big[2:9], (0.0, 1.0))
+    g3 = OneDGrid(v, v[::-1], (0, 1))
+    r1 = (float(g1.integrate(v)), float(g1.integrate(v, v)), float(g1.integrate(v, v, v)), float(g2.integrate(v)), float(g3.integrate(v, v)))
+    want = (math.fsum(x * x for x in ref), math.fsum(x ** 3 for x in ref), math.fsum(x ** 4 for x in ref),
+            math.fsum(a * b for a, b in zip(np.array(big[2:9]), ref)), math.fsum(a * b * b for a, b in zip(ref[::-1], ref)))
+    r2 = (float(g1.integrate(v)), float(g1.integrate(v, v)), float(g1.integrate(v, v, v)), float(g2.integrate(v)), float(g3.integrate(v, v)))
+    if any(abs(a - b) > 1e-13 * max(1.0, abs(b)) for a, b in zip(r1 + r2, want + want)):
+        ctx.fail("oracle", key, f"grids sharing one argument array: integrals {r1} / second time {r2}, from pristine copies {want}",
+                 witness={"array": ref.tolist()})
+    if big.tobytes() != snap:
+        ctx.fail("oracle", key, "the caller's array (a view of it was passed as points, as weights and as function values) was modified",
+                 witness={"array": ref.tolist(), "now": big.tolist()})
+    for g in (g1, g2, g3):
+        if not np.array_equal(g.points, ref):
+            ctx.fail("oracle", key, "points of a grid built on a shared array changed", witness={"array": ref.tolist()})
+    # one base rule object for several Trefethen requests: the same quadrature class three times, alternating parameters
+    for base in ("ClenshawCurtis", "GaussChebyshev"):
+        n = rng.randrange(4, 10)
+        with warnings.catch_warnings():
+            warnings.simplefilter("ignore")
+            first = [og.TrefethenGeneral(n, getattr(og, base), d) for d in (5, 9, 1)]
+            sg = og.TrefethenStripGeneral(n, getattr(og, base), 1.4)
+            again = [og.TrefethenGeneral(n, getattr(og, base), d) for d in (5, 9, 1)]
+            b = getattr(og, base)(n)
+        for d, a, c in zip((5, 9, 1), first, again):
+            if not (np.array_equal(a.points, c.points) and np.array_equal(a.weights, c.weights)):
+                ctx.fail("oracle", "onedgrid.TrefethenGeneral:shared-argument", f"TrefethenGeneral({n}, {base}, {d}) differs between two requests with the same class",
+                         witness={"class": "TrefethenGeneral", "base": base, "npoints": n, "d": d})
+        _ref_fail(ctx, base, [n], f"og.{base}({n})", [f"og.TrefethenGeneral({n}, og.{base}, 5)", f"og.TrefethenStripGeneral({n}, og.{base}, 1.4)"], g=b)
+
+
+RAISERS = ["og.{cls}(0{q})", "og.{cls}(-3{q})", "og.{cls}('7'{q})", "og.{cls}(None{q})", "og.{cls}({even}{q})", "og.{cls}({n}{q}, {bad})",
+           "og.{cls}({n}{q}, None)", "og.{cls}({n}{q}, 'x')", "og.{cls}()", "og.{cls}({n}{q}, 1, 2, 3)", "g0.integrate()", "g0.integrate([1.0] * g0.size)",
+           "g0.integrate(np.ones(g0.size + 1))", "g0.integrate(np.ones((g0.size, 1)))", "g0[10 ** 6]", "g0['a']",
+           "OneDGrid(g0.points, g0.weights, (5.0, 6.0))", "OneDGrid(g0.points, g0.weights[:-1], g0.domain)", "OneDGrid(g0.points, g0.weights, (1, 0))",
+           "OneDGrid(g0.points.reshape(-1, 1), g0.weights, g0.domain)"]
+
+
+def _oracle_after_raise(ctx, og, rng):
+    """Class 18: a call that raises leaves no trace.  For every class: a good construction, then every kind of refused call
+    (sizes, parameters, types, arities; integrate / indexing / OneDGrid with bad arguments on the good object), then the same
+    good construction again: bit-identical to the first and correct by the reference; the first object unchanged."""
+    from grid.basegrid import OneDGrid
+    for cls in ALL26:
+        odd = cls in STEP or cls == "Simpson"
+        n = 2 * rng.randrange(2, 7) + 1 if odd else rng.randrange(4, 12)
+        q = ", og.MidPoint" if "General" in cls else ""
+        args = (n, "MidPoint") if q else (n,)
+        good = f"og.{cls}({n}{q})"
+        bad = {"GaussLaguerre": "-1.5", "TrefethenCC": "4", "TrefethenGC2": "4", "TrefethenGeneral": "4"}.get(cls, "-0.5" if cls in STEP[1:] else "object()")
+        env = {"og": og, "np": np, "OneDGrid": OneDGrid}
+        with warnings.catch_warnings():
+            warnings.simplefilter("ignore")
+            g0 = _eval_src(og, good)
+            env["g0"] = g0
+            p0, w0, i0 = g0.points.copy(), g0.weights.copy(), complex(g0.integrate(g0.points))
+            raised, history = 0, []
+            calls = [r.format(cls=cls, q=q, n=n, even=n + 1 if odd else 0, bad=bad) for r in RAISERS]
+            rng.shuffle(calls)
+            for c in calls:
+                try:
+                    eval(c, env)
+                except Exception:
+                    raised += 1
+                    history.append(c)
+            try:
+                g1 = _eval_src(og, good)
+            except Exception as e:
+                g1 = e
+        key = f"onedgrid.{cls}:after-raise"
+        if isinstance(g1, Exception):
+            snippet = ("import warnings; warnings.filterwarnings('ignore')\nimport numpy as np\nfrom grid import onedgrid as og\nfrom grid.basegrid import OneDGrid\n"
+                       f"g0 = {good}\nfor c in {history!r}:\n    try:\n        eval(c)\n    except Exception:\n        pass\n"
+                       f"try:\n    g1 = {good}\nexcept Exception as e:\n    raise AssertionError('after refused calls the admissible call raises ' + repr(e))\n")
+            ctx.fail("oracle", key, f"{good} raises {type(g1).__name__}: {g1} after {raised} refused calls ({'; '.join(history[:3])} ...) although it was accepted before them",
+                     witness={"class": cls, "call": good, "refused_calls": history}, snippet=snippet)
+            continue
+        if not (np.array_equal(g0.points, p0, equal_nan=True) and np.array_equal(g0.weights, w0, equal_nan=True) and complex(g0.integrate(g0.points)) == i0):
+            ctx.fail("oracle", key, f"{good}: the object changed after {raised} refused calls ({'; '.join(history[:4])} ...)",
+                     witness={"class": cls, "call": good, "refused_calls": history})
+        if not (np.array_equal(g1.points, p0, equal_nan=True) and np.array_equal(g1.weights, w0, equal_nan=True) and tuple(g1.domain) == tuple(g0.domain)):
+            snippet = ("import warnings; warnings.filterwarnings('ignore')\nimport numpy as np\nfrom grid import onedgrid as og\nfrom grid.basegrid import OneDGrid\n"
+                       f"g0 = {good}\np0, w0 = g0.points.copy(), g0.weights.copy()\nfor c in {history!r}:\n    try:\n        eval(c)\n    except Exception:\n        pass\n"
+                       f"g1 = {good}\nassert np.array_equal(g1.points, p0) and np.array_equal(g1.weights, w0), 'the rule built after refused calls differs from the one built before'\n")
+            ctx.fail("oracle", key, f"{good} built after {raised} refused calls differs from the same call before them",
+                     witness={"class": cls, "call": good, "refused_calls": history}, snippet=snippet)
+        ctx.count(["after-raise", cls, raised], nontrivial=False, tag="after-raise")
+        _ref_fail(ctx, cls, list(args), good, history[-40:], g=g1, suffix=":after-raise")
+
+
+def _oracle_shapes(ctx, og, rng):
+    """Class 20: sizes 1 and 2 and arrays with unequal dimensions -- everything that is not a 1-D array of the grid's size is
+    refused (never broadcast); the one- and two-point rules exist where admissible."""
+    from grid.basegrid import OneDGrid
+    key = "basegrid.OneDGrid:shape"
+    for shape in ((1, 3), (3, 1), (2, 1), (1, 2), (1, 1), (2, 2), (2, 3), ()):
+        p = np.full(shape, 0.5)
+        for w in (np.ones(shape[0] if shape else 1), np.ones(shape)):
+            try:
+                OneDGrid(p, w, (0, 1))
+                ctx.fail("oracle", key, f"OneDGrid accepted points of shape {shape} with weights of shape {w.shape}", witness={"shape": list(shape)})
+            except (ValueError, TypeError):
+                pass
+    for ws in ((3, 1), (1, 3), (1,), (2,), ()):
+        try:
+            OneDGrid(np.array([0.1, 0.2, 0.3]), np.ones(ws), (0, 1))
+            ctx.fail("oracle", key, f"OneDGrid accepted 3 points with weights of shape {ws}", witness={"weights_shape": list(ws)})
+        except (ValueError, TypeError):
+            pass
+    for n in (1, 2, 3):
+        g = OneDGrid(np.linspace(0.2, 0.8, n), np.arange(1.0, n + 1), (0, 1))
+        if g.size != n or abs(float(g.integrate(g.points)) - math.fsum((i + 1) * x for i, x in enumerate(np.linspace(0.2, 0.8, n)))) > 1e-14:
+            ctx.fail("oracle", key, f"{n}-point OneDGrid: size / integrate wrong")
+        for bad in (np.ones((n, 1)), np.ones((1, n)), np.ones(n + 1), np.ones(()), np.ones((n, n))):
+            if bad.shape == (n,):
+                continue
+            try:
+                g.integrate(bad)
+                ctx.fail("oracle", key, f"{n}-point OneDGrid.integrate accepted values of shape {bad.shape}", witness={"npoints": n, "shape": list(bad.shape)})
+            except (ValueError, TypeError):
+                pass
+    # one- and two-point rules
+    for cls in ALL26:
+        if "General" in cls:
+            continue
+        for n in (1, 2):
+            adm = _admissible(cls, [n])
+            g = _build(og, cls, n)
+            if adm and g is None:
+                ctx.fail("oracle", f"onedgrid.{cls}", f"{cls}({n}) rejected although admissible", witness={"class": cls, "npoints": n})
+            elif adm:
+                _ref_fail(ctx, cls, [n], f"og.{cls}({n})", [], g=g)
+
+
 def oracle(ctx: Ctx, budget: str):
     """The property on the implementation: exact moments against rationals / mpmath, documented nodes and
-    weights, weight = step x derivative of the node map (mpmath differentiation), order and domain."""
+    weights, weight = step x derivative of the node map (mpmath differentiation), order and domain.  Independent parts,
+    each protected: an exception in one never hides what the others find (`_run_parts`)."""
     og = _og()
     large = budget == "large" or ctx.thorough
     nmax = 64
-    _oracle_repeated(ctx, og, ctx.rng)      # first: its failures carry the constructions that precede them
-    _oracle_moments(ctx, og, nmax)
-    _oracle_weighted(ctx, og, nmax, ctx.rng)
-    _oracle_closed(ctx, og, ctx.rng, nmax if large else 40)
-    _oracle_subst(ctx, og, ctx.rng, nmax, large)
-    _oracle_trefethen(ctx, og, ctx.rng, 40, 12 if large else 3)
-    # the listed Fejer-2 finding is "complete sine series minus its last term": anything else is a new defect
-    for n in range(2, nmax + 1):
-        _ref_fail(ctx, "FejerSecond", [n], f"og.FejerSecond({n})", [])
-    _oracle_float32(ctx, og)
-    _oracle_domain_check(ctx, ctx.rng)
-    _oracle_use(ctx, og, ctx.rng)
+    rng = ctx.rng
+
+    def fejer2_beyond():
+        # the listed Fejer-2 finding is "complete sine series minus its last term": anything else is a new defect
+        for n in range(2, nmax + 1):
+            _ref_fail(ctx, "FejerSecond", [n], f"og.FejerSecond({n})", [])
+
+    _run_parts(ctx, "oracle", [
+        ("repeated", lambda: _oracle_repeated(ctx, og, rng)),      # first: its failures carry the constructions that precede them
+        ("moments", lambda: _oracle_moments(ctx, og, nmax)),
+        ("weighted", lambda: _oracle_weighted(ctx, og, nmax, rng)),
+        ("closed", lambda: _oracle_closed(ctx, og, rng, nmax if large else 40)),
+        ("subst", lambda: _oracle_subst(ctx, og, rng, nmax, large)),
+        ("step-grid", lambda: _oracle_step_grid(ctx, og, rng, large)),
+        ("trefethen", lambda: _oracle_trefethen(ctx, og, rng, 40, 12 if large else 3)),
+        ("fejer2", fejer2_beyond),
+        ("float32", lambda: _oracle_float32(ctx, og)),
+        ("domain-check", lambda: _oracle_domain_check(ctx, rng)),
+        ("use", lambda: _oracle_use(ctx, og, rng)),
+        ("array-kinds", lambda: _oracle_kinds(ctx, og, rng)),
+        ("argument-forms", lambda: _oracle_arg_forms(ctx, og, rng)),
+        ("shared-arguments", lambda: _oracle_shared_args(ctx, og, rng)),
+        ("after-raise", lambda: _oracle_after_raise(ctx, og, rng)),
+        ("shapes", lambda: _oracle_shapes(ctx, og, rng)),
+        ("guards", lambda: _oracle_guards(ctx, og)),
+    ])
+
+
+def _oracle_guards(ctx, og):
     # rejected sizes (every `npoints` guard: below the smallest size; even sizes of the odd-only rules)
     for cls in ALL26:
         if cls in ("TrefethenGeneral", "TrefethenStripGeneral"):
